@@ -228,7 +228,7 @@ func genBatchModel(r *gen.R) *batchModel {
 			if rank == 2 && axis == 0 {
 				n := r.Range(1, 4)
 				w := p.addInit("W", p.smallWeights([]int{xv.Shape[1], n}, 1))
-				b := p.addInit("b", p.smallWeights([]int{n}, 1))
+				b := p.addInit("b", p.smallWeights(r.PickShape([]int{n}, []int{n}, []int{1, n}, []int{}), 1))
 				add(progNode{G: mon.GNode{Op: "Gemm", Inputs: []string{cur, w, b}}, Mode: CmpTol, Eval: approxEval(func(in []*ref.T) (*ref.Approx, error) { return ref.Gemm(in[0], in[1], in[2], 1, 1, false, false) })}, 0)
 			}
 		case 4:
@@ -286,6 +286,20 @@ func genBatchModel(r *gen.R) *batchModel {
 		s := append([]int{}, inShape...)
 		s[inAxis] = b
 		feed := map[string]*ref.T{inName: uniformT(r, ref.F32, s, 1)}
+		if r.Chance(0.25) {
+			// samples of very different magnitude and sign in one batch (a normalisation that
+			// carries a running maximum from one row to the next shows only then)
+			t := feed[inName]
+			inner := 1
+			for _, e := range s[inAxis+1:] {
+				inner *= e
+			}
+			for i := range t.Bits {
+				row := (i / inner) % s[inAxis]
+				f := []float64{1, 60, -60, 25, -90, 90}[(row*7+len(t.Bits))%6]
+				t.Bits[i] = ref.EncF(ref.F32, t.F(i)*f)
+			}
+		}
 		for _, e := range extraInputs {
 			es := append([]int{}, e.shape...)
 			es[e.axis] = b
